@@ -27,7 +27,7 @@ from vf.checks import c09_more
 
 PROP = "C09"
 CASES = {"quick": 20000, "thorough": 600000}
-RULE = ("family in 58 method families x parameters from a small grid inside the documented range (so that each bound is "
+RULE = ("family in 59 method families x parameters from a small grid inside the documented range (so that each bound is "
         "computed once per shard and reused) x real member (seeded) x dimension 1-4 x starting point.  Non-trivial = real "
         "performance >= 50% of the bound; distinct by case JSON.")
 TRUSTED = ["the numpy re-implementations of the methods in vf/checks/c09.py (from the docstrings)", "vf/members.py", "CLARABEL"]
